@@ -44,14 +44,23 @@ func genAllow() map[string]bool {
 }
 
 func genBase(t *rapid.T, simple bool) (string, opgen.Op) {
-	noDirectives := simple
+	sdl, super := genSchema(t)
+	return sdl, genOp(t, super, simple)
+}
+
+func genSchema(t *rapid.T) (string, *ast.Schema) {
 	l := fedgen.Gen(t, fedgen.Options{MaxSubs: 2})
 	sdl := l.Super + subscriptionSDL
 	super, err := sim.LoadSuper(sdl)
 	if err != nil {
 		t.Fatalf("generator produced an invalid schema: %v", err)
 	}
-	return sdl, opgen.Gen(t, super, opgen.Options{Mutations: true, SecondOp: true, NoDirectives: noDirectives, Simple: simple, Allow: genAllow(), Budget: 14})
+	return sdl, super
+}
+
+func genOp(t *rapid.T, super *ast.Schema, simple bool) opgen.Op {
+	noDirectives := simple
+	return opgen.Gen(t, super, opgen.Options{Mutations: true, SecondOp: true, NoDirectives: noDirectives, Simple: simple, Allow: genAllow(), Budget: 14})
 }
 
 var validPart = pbt.Part[docCase]{Name: "valid-accepted", Quick: 14000, Thorough: 280000, Check: checkDoc,
